@@ -229,6 +229,10 @@ const unsigned char *ares_dns_multistring_combined(ares_dns_multistring_t *strs,
     (unsigned char *)ares_buf_finish_str(buf, &strs->cache_str_len);
   if (strs->cache_str != NULL) {
     strs->cache_invalidated = ARES_FALSE;
+  } else {
+    /* ares_buf_finish_str() fails (out of memory when nothing was appended)
+     * without consuming the buffer */
+    ares_buf_destroy(buf);
   }
   *len = strs->cache_str_len;
   return strs->cache_str;
